@@ -4,7 +4,7 @@ import OpusProofs.SilkCoreTotal
   and the induction over frame histories (property C03, slice SilkCore).
 -/
 namespace Opus.SilkCoreProofs
-open Opus Opus.SilkParams Opus.SilkCore Opus.Gen
+open Opus Opus.SilkParams Opus.SilkCore Opus.Gen Opus.Frozen
 
 theorem subframes_total (s : DecState) (f : FrameIn) (ctrl : Ctrl) (ifl : Bool) (exc : List Int) (H : CoreHyp s f ctrl)
     (hexc : s.nbSubfr * subfrLen s.fsKHz ≤ exc.length) :
